@@ -25,7 +25,7 @@ def build_harness(config="plain", extra_ldflags=()):
     if os.path.exists(out) and os.path.exists(stamp) and open(stamp).read() == hv:
         return out
     cc = "clang" if config in ("asan", "tsan") else "gcc"
-    cflags = ["-O1", "-g", "-std=gnu11", "-Wall", "-Wno-unused-function", "-fno-strict-aliasing"]
+    cflags = ["-O1", "-g", "-std=gnu11", "-Wall", "-Wno-unused-function", "-Wno-format-truncation", "-fno-strict-aliasing"]
     if config == "asan":
         cflags += ["-fsanitize=address,undefined", "-fno-sanitize-recover=undefined"]
     objs = []
